@@ -20,9 +20,9 @@ from vlib.e2e.env import ProxyEnv
 from vlib.e2e_runner import Result
 
 LOGFORMAT = ("logformat c34 T=%{X-Tag}>h q=\"%\"{X-V}>h\" m=[%[{X-V}>h] u=%#{X-V}>h s=%/{X-V}>h d=%{X-V}>h "
-             "uq=\"%\"un\" um=[%[un] uu=%#un us=%/un ud=%un ru=%ru rq=\"%\"ru\" st=%>Hs END r=%'{X-V}>h")
+             "uq=\"%\"un\" um=[%[un] uu=%#un us=%/un ru=%ru rq=\"%\"ru\" st=%>Hs END r=%'{X-V}>h")
 FIELDS = [("T", "word"), ("q", "quoted"), ("m", "bracket"), ("u", "word"), ("s", "shell"), ("d", "word"),
-          ("uq", "quoted"), ("um", "bracket"), ("uu", "word"), ("us", "shell"), ("ud", "word"), ("ru", "word"), ("rq", "quoted"), ("st", "word")]
+          ("uq", "quoted"), ("um", "bracket"), ("uu", "word"), ("us", "shell"), ("ru", "word"), ("rq", "quoted"), ("st", "word")]
 
 HELPER = "#!/bin/sh\nwhile read user pass; do\n  echo OK\ndone\n"
 
@@ -30,7 +30,7 @@ HELPER = "#!/bin/sh\nwhile read user pass; do\n  echo OK\ndone\n"
 ATOMS = ["\"", "\\", "\t", " ", "  ", "%0a", "%0d%0a", "%", "%25", "%22", "[", "]", "#", "'", "\x01", "\x08", "\x0b", "\x0c", "\x1b", "\x7f", "\x80", "\xa0", "\xff",
          "\\n", "\\r", "\\\"", "\\\\", "\" ", " \"", "\"\"", "a", "Z", "0", "-", "=", ";", ",", "<", ">", "|", "&", "$(x)", "`", "{}", "^", "~", "?", "/",
          " T=forged END r=", "\" m=[x] u=y", "] u=", "END", "\xe2\x82\xac"]
-USER_EXTRA = ["\n", "\r", "\r\n", "\nT=forged q=\"\" END r=", "\x00"]          # a Basic user name is base64-carried: any byte but ':' can arrive
+USER_EXTRA = ["\n", "\r", "\r\n", "\nT=forged q=\"\" END r="]          # a Basic user name is base64-carried: any byte but ':' can arrive (NUL excluded: C string)
 
 
 def _value(atoms_strategy):
@@ -40,7 +40,7 @@ def _value(atoms_strategy):
 def strategy(tp):
     hv = st.one_of(_value(st.sampled_from(ATOMS)), st.text(alphabet=[chr(c) for c in range(1, 256) if c not in (10, 13)], max_size=40),
                    st.tuples(st.sampled_from(ATOMS), st.integers(300, 3000)).map(lambda t: (t[0] * t[1])[:t[1]]))
-    uv = st.one_of(st.none(), _value(st.sampled_from(ATOMS + USER_EXTRA)), st.text(alphabet=[chr(c) for c in range(1, 256) if c != 58], min_size=1, max_size=30))
+    uv = st.one_of(st.none(), _value(st.sampled_from(ATOMS + USER_EXTRA)), st.text(alphabet=[chr(c) for c in range(1, 256) if c not in (58, 10, 13)], min_size=1, max_size=30))
     txn = st.fixed_dictionaries({
         "value": hv,
         "user": uv,
@@ -48,6 +48,8 @@ def strategy(tp):
         "method": st.sampled_from(["GET", "GET", "POST"]),
         "path_extra": _value(st.sampled_from(["\"", "%22", "%0a", "'", "\\", "[", "]", "<", "a", "%", "?x=\"y\"", "\t"])),
         "version": st.sampled_from(["HTTP/1.1", "HTTP/1.1", "HTTP/1.0"]),
+        # obs-fold / bare CR inside the value: what Squid "received" is then its own normalisation, so only delimiting is judged
+        "fold": st.sampled_from([None] * 8 + ["\r\n ", "\r\n\t", "\r", "\n "]),
     })
     return st.fixed_dictionaries({
         "txns": st.lists(txn, min_size=1, max_size=4),
@@ -244,23 +246,37 @@ def read_new_lines(env, want, timeout):
 def execute(env, sc):
     r = Result()
     ns = env.ns()
-    if env.squid.starts and getattr(env, "_run_seen", None) != env.squid.run:
+    if getattr(env, "_run_seen", None) != env.squid.run:
+        # fresh instance: its start-up port probes are logged as empty connections when Squid notices they closed
         env._run_seen = env.squid.run
         env.log_pos = 0
+        warm = client.Conn(env.port, timeout=20)
+        try:
+            warm.send(("GET http://127.0.0.1:%d/warm HTTP/1.1\r\nHost: x\r\nConnection: close\r\n\r\n" % env.origin.port).encode())
+            warm.read_response(b"GET", timeout=20)
+        finally:
+            warm.close()
+        time.sleep(0.5)
     # flush records of anything still in flight from an earlier example
-    stale = read_new_lines(env, 0, 0.0)
+    read_new_lines(env, 0, 0.0)
     txns = sc["txns"]
     sent = []
     streams = []         # one byte stream per connection: list of (request bytes, abort?)
     for i, t in enumerate(txns):
         tag = "%s-%d" % (ns, i)
-        value = t["value"].strip(" \t")
+        value = t["value"].strip(" \t\x0b\x0c")       # field values arrive without surrounding white space (isspace() characters)
+        fold = t.get("fold")
+        wire_value = value
+        if fold and len(value) >= 2:
+            wire_value = value[:len(value) // 2].rstrip(" \t") + fold + value[len(value) // 2:].lstrip(" \t")
+        else:
+            fold = None
         path = "/%s%s/%d/%s" % ("deny/" if t["kind"] == "deny" else "", ns, i, t["path_extra"].replace(" ", ""))
         hostport = "127.0.0.1:%d" % env.origin.port
         url = "http://%s%s" % (hostport if t["kind"] != "error-url" else "127.0.0.1:0", path)
         lines = ["%s %s %s" % (t["method"], url, t["version"]), "Host: " + hostport, "X-Tag: " + tag]
         if value:
-            lines.append("X-V: " + value)
+            lines.append("X-V: " + wire_value)
         if t["user"] is not None:
             lines.append("Proxy-Authorization: Basic " + base64.b64encode((t["user"] + ":pw").encode("latin-1")).decode())
         body = b""
@@ -274,7 +290,8 @@ def execute(env, sc):
             data += body[:700]
         else:
             data += body
-        sent.append({"tag": tag.encode(), "value": value.encode("latin-1"), "user": None if t["user"] is None else t["user"].encode("latin-1"), "kind": t["kind"]})
+        sent.append({"tag": tag.encode(), "value": value.encode("latin-1"), "user": None if t["user"] is None else t["user"].encode("latin-1"), "kind": t["kind"],
+                     "fold": fold})
         streams.append((data, t["kind"] in ("abort-before-reply", "abort-in-body") and not (t["kind"] == "abort-in-body" and t["method"] != "POST")))
     env.origin.default_behaviour = {"status": 200, "body_b64": base64.b64encode(b"ok").decode(), "headers": [["Cache-Control", "no-store"]]}
     # ---- drive the connections: pipelined = one connection for the run of transactions up to (and including) the first abort
@@ -314,7 +331,18 @@ def execute(env, sc):
         r.inconclusive = "fewer log lines than transactions before the deadline"
         r.label("lines-missing")
     elif len(lines) > expected:
-        r.fail("more-log-lines-than-transactions", "%d transactions, %d new lines: %r" % (expected, len(lines), [l[:200] for l in lines[:6]]))
+        pseudo = [l for l in lines if b" ru=error:transaction-end-before-headers " in l]
+        def _status(l):
+            try:
+                return int(l.rsplit(b" st=", 1)[1].split(b" ", 1)[0])
+            except (IndexError, ValueError):
+                return 0
+        rejected_with_body = any(t["method"] == "POST" for t in txns) and any(_status(l) >= 400 for l in lines if l not in pseudo)
+        if pseudo and len(lines) - len(pseudo) <= expected and rejected_with_body:
+            r.fail("extra-record:unread-body-of-rejected-request-logged-as-another-transaction",
+                   "%d transactions, %d new lines, %d of them error:transaction-end-before-headers: %r" % (expected, len(lines), len(pseudo), [l[:200] for l in lines[:6]]))
+        else:
+            r.fail("more-log-lines-than-transactions", "%d transactions, %d new lines: %r" % (expected, len(lines), [l[:200] for l in lines[:6]]))
     # ---- every line parses; reversible quotings give back what was sent
     by_tag = {}
     for l in lines:
@@ -333,7 +361,11 @@ def execute(env, sc):
             continue
         f = recs[0]
         r.label("kind:" + s["kind"])
+        if s["fold"]:
+            r.label("folded-value-logged")
         for name in ("q", "m", "u", "s"):
+            if s["fold"]:
+                break
             raw = f[name]
             if raw == b"-" and s["value"] != b"-":
                 if s["value"]:
@@ -351,7 +383,7 @@ def execute(env, sc):
                 r.label("value-has-own-delimiter:" + name)
         if s["user"] is not None:
             got_user = f["uq"] != b"-"
-            r.label("user-logged" if got_user else "user-not-logged")
+            r.label("user-logged" if got_user else ("user-with-line-break-not-logged" if (b"\n" in s["user"] or b"\r" in s["user"]) else "user-not-logged"))
             if got_user:
                 for name in ("uq", "um", "uu", "us"):
                     try:
